@@ -548,18 +548,25 @@ func (c *corrCtx) checkParse(model, fname, data string) {
 			keep = append(keep, f[0]+"|"+f[1]+"|"+f[3]+"|"+f[4])
 		}
 		sort.Strings(keep)
-		return "ok:" + strings.Join(keep, cRS)
+		ref := "ok"
+		if err != nil {
+			ref = "diag:" + err.Error() // checkReferences
+		}
+		return "ok:" + strings.Join(keep, cRS) + cUS + ref
 	}()
 	c.res.Eval("parse\n"+req, strings.Count(data, "\n") > 1)
+	if strings.Contains(impl, cUS+"diag:") {
+		c.res.Count("corr-outcome:parse-" + model + ":checkReferences-diag")
+	}
 	c.res.TracesVsImpl++
 	c.res.Count("corr:parse-" + model)
 	c.res.Count("corr-outcome:parse-" + model + ":" + strings.SplitN(impl, ":", 2)[0])
 	okAgree := false
 	modelShown := m
 	if strings.HasPrefix(m, "ok:") {
-		parts := strings.SplitN(strings.TrimPrefix(m, "ok:"), cUS, 2)
+		parts := strings.SplitN(strings.TrimPrefix(m, "ok:"), cUS, 3)
 		if parts[0] != "" {
-			// post-processing failures: Go visits names in map order, any of them may come first
+			// post-processing failures: any of them may be the one that is reported
 			for _, f := range strings.Split(parts[0], cRS) {
 				if canonModel(f) == impl {
 					okAgree = true
@@ -572,7 +579,11 @@ func (c *corrCtx) checkParse(model, fname, data string) {
 				d = strings.Split(parts[1], cRS)
 			}
 			sort.Strings(d)
-			modelShown = "ok:" + strings.Join(d, cRS)
+			ref := "ok"
+			if len(parts) > 2 {
+				ref = canonModel(parts[2])
+			}
+			modelShown = "ok:" + strings.Join(d, cRS) + cUS + ref
 			okAgree = modelShown == impl
 		}
 	} else {
@@ -1067,6 +1078,250 @@ func (c *corrCtx) runInfo() {
 	}
 }
 
+// ---------------------------------------------------------------- round 3: banner, header, merged ACL order, references
+
+func (c *corrCtx) runBanner(lines []string, n int) {
+	one := func(stream, op, data string, real func() string) {
+		req := op + cUS + strings.ReplaceAll(data, "\n", cGS)
+		c.check(stream, req, strings.Contains(data, "\n"), real, nil)
+	}
+	banner := func(data string) {
+		one("removeBanner", "banner", data, func() string { return string(ios.VerifC20RemoveBanner([]byte(data))) })
+	}
+	header := func(data string) {
+		one("removeHeader", "nsxheader", data, func() string { return string(nsx.VerifC20RemoveHeader([]byte(data))) })
+	}
+	fixed := []string{"", "\n", "a", "a\n", "banner motd ^CC\nxx\n^C\nb\n", "a\nbanner motd ^CC\nxx\n^C\nb", "banner  motd ^CC\nx\n", "banner motd  ^C\nx\n^\ny\n",
+		"banner motd \nx\n", "banner motd  x\nq\n y\nz\n", "banner motd x\nq\n", "banner motd ^C\n", "banner motd ^CC", "bannerx motd ^CC\nq\n", "banner\tmotd\t\t# \nq\n#\nr\n",
+		"banner exec ^C\nq\n^C more\nrest\nbanner login #x\n#\nend\n", "banner motd ^CC\nnever closed\nmore\n", "x\nbanner motd ##\n#\n", "banner motd \r\nq\n\r\nz\n",
+		"banner a  \n"}
+	words := []string{"banner", "motd", "exec", "^C", "^CC", "#", "##", "x", "", " ", "  ", "\t", "^", "interface E0", " ip address 1.1.1.1", "!", "^C x", "banner motd ^CC"}
+	for _, d := range fixed {
+		banner(d)
+	}
+	for i := 0; i < n; i++ {
+		var ls []string
+		for j := 0; j < 1+c.rng.Intn(7); j++ {
+			var w []string
+			for k := 0; k < 1+c.rng.Intn(4); k++ {
+				w = append(w, Pick(c.rng, words))
+			}
+			ls = append(ls, strings.Join(w, Pick(c.rng, []string{" ", " ", "  ", "\t"})))
+		}
+		d := strings.Join(ls, "\n")
+		if c.rng.Chance(70) {
+			d += "\n"
+		}
+		banner(d)
+	}
+	// configuration lines of the IOS tests with a banner in front / inside
+	for i, l := range lines {
+		if i >= n {
+			break
+		}
+		banner("banner motd ^C\n" + l + "\n^C\n" + l + "\n")
+	}
+	for _, d := range []string{"", "#", "# x", "# x\n", "# x\n# y\n{}", "{}", "#\n#\n#", "x#\n", "\n# x\n{}", "# x\n\n# y\n{}"} {
+		header(d)
+	}
+	for i := 0; i < n/2; i++ {
+		var ls []string
+		for j := 0; j < c.rng.Intn(5); j++ {
+			ls = append(ls, Pick(c.rng, []string{"# c", "#", "{}", "", "x", "#{\"a\":1}"}))
+		}
+		d := strings.Join(ls, "\n")
+		if c.rng.Chance(50) {
+			d += "\n"
+		}
+		header(d)
+	}
+}
+
+// runMergeACL: merged order of ACL lines (mergeASAACLs / mergeIOSACLs) for generated Netspoc and raw parts.
+func (c *corrCtx) runMergeACL(n int) {
+	asaLines := []string{"permit ip any4 any4", "deny ip any4 any4", "permit tcp any4 host 10.1.1.1 eq 80", "deny ip host 10.1.1.9 any4",
+		"permit udp any4 any4 eq 53", "deny ip any6 any6", "permit icmp any4 any4", "deny tcp any4 any4"}
+	iosLines := []string{"permit ip any any", "deny ip any any", "permit tcp any host 10.1.1.1 eq 80", "deny ip host 10.1.1.9 any", "permit udp any any eq 53",
+		"deny tcp any any", "remark x", "permit 50 any any"}
+	enc := func(app bool, orig, parsed string) string {
+		a := "0"
+		if app {
+			a = "1"
+		}
+		return a + cGS + orig + cGS + parsed
+	}
+	for i := 0; i < n; i++ {
+		isASA := c.rng.Bool()
+		pick := func(max int) []string {
+			var l []string
+			pool := iosLines
+			if isASA {
+				pool = asaLines
+			}
+			seen := map[string]bool{}
+			for j := 0; j < c.rng.Intn(max+1); j++ {
+				x := Pick(c.rng, pool)
+				if !seen[x] {
+					seen[x] = true
+					l = append(l, x)
+				}
+			}
+			return l
+		}
+		a := pick(4)
+		pre := pick(3)
+		app := pick(3)
+		twice := !isASA && c.rng.Chance(25) // the same ACL twice in the raw file (IOS only)
+		if isASA {
+			var spoc, raw, encA, encB []string
+			for _, l := range a {
+				spoc = append(spoc, "access-list A extended "+l)
+				encA = append(encA, enc(false, "access-list A extended "+l, "access-list $NAME extended "+l))
+			}
+			for _, l := range pre {
+				raw = append(raw, "access-list A extended "+l)
+				encB = append(encB, enc(false, "access-list A extended "+l, "access-list $NAME extended "+l))
+			}
+			if len(app) > 0 {
+				raw = append(raw, "[APPEND]")
+			}
+			for _, l := range app {
+				raw = append(raw, "access-list A extended "+l)
+				encB = append(encB, enc(true, "access-list A extended "+l, "access-list $NAME extended "+l))
+			}
+			if len(encB) == 0 {
+				continue
+			}
+			spoc = append(spoc, "access-group A global")
+			// access-group in front of [APPEND]: the anchor itself is not appended
+			rawText := "access-group A global\n" + strings.Join(raw, "\n") + "\n"
+			spocText := strings.Join(spoc, "\n") + "\n"
+			req := strings.Join([]string{"mergeasa", strings.Join(encA, cRS), strings.Join(encB, cRS)}, cUS)
+			c.check("mergeASAACLs", req, len(app) > 0, func() string {
+				dump, err := (&asa.Setup().State).VerifC20MergeACL([]byte(spocText), []byte(rawText), "router.raw")
+				if err != nil {
+					return "DIAG:" + err.Error()
+				}
+				for _, e := range dump {
+					if strings.HasPrefix(e, "A|") {
+						return strings.Join(strings.Split(e, "|")[1:], cRS)
+					}
+				}
+				return ""
+			}, nil)
+		} else {
+			var spoc, encA []string
+			spoc = append(spoc, "ip access-list extended A")
+			for _, l := range a {
+				spoc = append(spoc, " "+l)
+				encA = append(encA, enc(false, l, l))
+			}
+			mkRaw := func(pre, app []string) (string, string) {
+				raw := []string{"ip access-list extended A"}
+				var e []string
+				for _, l := range pre {
+					raw = append(raw, " "+l)
+					e = append(e, enc(false, l, l))
+				}
+				if len(app) > 0 {
+					raw = append(raw, "[APPEND]")
+				}
+				for _, l := range app {
+					raw = append(raw, " "+l)
+					e = append(e, enc(true, l, l))
+				}
+				return strings.Join(raw, "\n") + "\n", strings.Join(e, cRS)
+			}
+			// the interface (anchor) first, so that [APPEND] of the ACL block does not mark it
+			r1, e1 := mkRaw(pre, app)
+			rawText := "interface E0\n ip access-group A in\n" + r1
+			encB := e1
+			if twice {
+				// a second block of the same ACL behind [APPEND]: every line of it is appended
+				r2, _ := mkRaw(nil, nil)
+				_ = r2
+				var e []string
+				raw2 := []string{"ip access-list extended A"}
+				for _, l := range pick(2) {
+					raw2 = append(raw2, " "+l)
+					e = append(e, enc(len(app) > 0, l, l))
+				}
+				rawText += strings.Join(raw2, "\n") + "\n"
+				encB += "\x1c" + strings.Join(e, cRS)
+			}
+			spocText := strings.Join(spoc, "\n") + "\ninterface E0\n ip access-group A in\n"
+			req := strings.Join([]string{"mergeios", strings.Join(encA, cRS), encB}, cUS)
+			c.check("mergeIOSACLs", req, len(app) > 0, func() string {
+				dump, err := (&ios.Setup().State).VerifC20MergeACL([]byte(spocText), []byte(rawText), "router.raw")
+				if err != nil {
+					return "DIAG:" + err.Error()
+				}
+				for _, e := range dump {
+					if strings.HasPrefix(e, "A|") || e == "A" {
+						return strings.Join(strings.Split(e, "|")[1:], cRS)
+					}
+				}
+				return ""
+			}, nil)
+		}
+	}
+}
+
+// runRefs: configurations with references (known, unknown, default objects, too many), for checkReferences.
+func (c *corrCtx) runRefs(n int) {
+	names := []string{"G1", "G2", "X", "DfltGrpPolicy", "DefaultL2LGroup", "A"}
+	for i := 0; i < n; i++ {
+		var ls []string
+		model := "asa"
+		if c.rng.Chance(30) {
+			model = "ios"
+		}
+		if model == "asa" {
+			for j := 0; j < 1+c.rng.Intn(4); j++ {
+				switch c.rng.Intn(9) {
+				case 0:
+					ls = append(ls, "object-group network "+Pick(c.rng, names), " network-object host 10.1.1.1")
+				case 1:
+					ls = append(ls, "access-list "+Pick(c.rng, names)+" extended permit ip object-group "+Pick(c.rng, names)+" any4")
+				case 2:
+					ls = append(ls, "access-list "+Pick(c.rng, names)+" extended permit tcp object-group "+Pick(c.rng, names)+" object-group "+Pick(c.rng, names)+" eq 80")
+				case 3:
+					ls = append(ls, "access-group "+Pick(c.rng, names)+" global")
+				case 4:
+					ls = append(ls, "tunnel-group "+Pick(c.rng, names)+" general-attributes", " default-group-policy "+Pick(c.rng, names))
+				case 5:
+					ls = append(ls, "group-policy "+Pick(c.rng, names)+" internal")
+				case 6:
+					k := 1 + c.rng.Intn(13)
+					ls = append(ls, "crypto ipsec ikev1 transform-set T esp-aes", "crypto map M 1 set ikev1 transform-set"+strings.Repeat(" T", k))
+				case 7:
+					ls = append(ls, "crypto map M 1 match address "+Pick(c.rng, names), "crypto map M 1 set peer 1.1.1.1")
+				case 8:
+					ls = append(ls, "crypto map "+Pick(c.rng, []string{"M", "N"})+" interface outside")
+				}
+			}
+		} else {
+			for j := 0; j < 1+c.rng.Intn(3); j++ {
+				switch c.rng.Intn(4) {
+				case 0:
+					ls = append(ls, "ip access-list extended "+Pick(c.rng, names), " permit ip any any", " deny ip "+Pick(c.rng, []string{"any", "object-group G1", "host 1.1.1.1"})+" any")
+				case 1:
+					ls = append(ls, "interface E"+fmt.Sprint(j), " ip access-group "+Pick(c.rng, names)+" in")
+				case 2:
+					ls = append(ls, "crypto map "+Pick(c.rng, names)+" 1 ipsec-isakmp", " set ip access-group "+Pick(c.rng, names)+" in", " set peer 1.1.1.1")
+				case 3:
+					ls = append(ls, "interface F"+fmt.Sprint(j), " crypto map "+Pick(c.rng, names))
+				}
+			}
+		}
+		fname := "router"
+		if c.rng.Chance(30) {
+			fname = "router.raw"
+		}
+		c.checkParse(model, fname, strings.Join(ls, "\n")+"\n")
+	}
+}
+
 func runCorr(ctx *Ctx, res *Result) {
 	c := &corrCtx{ctx: ctx, res: res, rng: ctx.Rng.Fork()}
 	c.drv = ctx.StartNadrv("c20")
@@ -1088,6 +1343,9 @@ func runCorr(ctx *Ctx, res *Result) {
 	c.runNsx(ctx.N(600, 6000))
 	c.runPanos(ctx.N(300, 3000))
 	c.runInfo()
+	c.runBanner(testdataLines(bases, "IOS"), ctx.N(300, 5000))
+	c.runMergeACL(ctx.N(400, 8000))
+	c.runRefs(ctx.N(400, 8000))
 	res.Assumptions = append(res.Assumptions,
 		"correspondence inputs are ASCII (the models use ASCII white space for unicode.IsSpace); the correspondence compares the FIXED code (fixed = true); the snapshot behaviour (fixed = false) is tied by the replays of the counterexample inputs on the commits before the fixes, recorded in known/C20.jsonl")
 }
